@@ -23,7 +23,7 @@ func init() {
 		"part C (loader state): the same relative reference text in two directories, all DoFile histories (shared with C20); non-trivial = differs from base; distinct = (source hash, document)"
 }
 
-var c10Devs = []string{"LEN_BYTES", "UNENFORCED_NAMED_ARRAY", "UNENFORCED_ITEM_STRING", "UNENFORCED_ITEM_NUMERIC", "REF_UNTYPED_DEF_IS_ANY", "FORMAT_DEF_NO_METHODS", "UNENFORCED_NAMED_ARRAY_ITEM_REQUIRED",
+var c10Devs = []string{"NULL_OBJECT_VALIDATES_ZERO", "LEN_BYTES", "UNENFORCED_NAMED_ARRAY", "UNENFORCED_ITEM_STRING", "UNENFORCED_ITEM_NUMERIC", "REF_UNTYPED_DEF_IS_ANY", "FORMAT_DEF_NO_METHODS", "UNENFORCED_NAMED_ARRAY_ITEM_REQUIRED",
 	"UNENFORCED_INLINE_STRUCT_PROPS", "COMPOSITE_DEF_REF_IS_ANY", "ANYOF_MERGED_FIELD_TYPES", "UNENFORCED_MAPVAL_STRING", "UNENFORCED_MAPVAL_NUMERIC", "UNENFORCED_MAPVAL_REQUIRED", "NULLTYPE_UNENFORCED",
 	"RECURSIVE_ANYOF_IS_ANY"}
 
